@@ -354,6 +354,11 @@ func (m *Model) Build(st *Step, ci int, rid uint32) *Pending {
 		req := &hagallpb.EntityUpdatePose{Type: hagallpb.MsgType_MSG_TYPE_ENTITY_UPDATE_POSE, Timestamp: ts, EntityId: id}
 		if !st.NoPose {
 			req.Pose = posePB(st.Seq)
+			if st.Variant == "repeat" && s != nil && s.Entities[id] != nil {
+				// resend the pose the entity already has
+				e := s.Entities[id]
+				req.Pose = s.entityPB(e).Pose
+			}
 		}
 		p.Req = req
 		p.RID = 0
@@ -724,6 +729,8 @@ func (m *Model) Build(st *Step, ci int, rid uint32) *Pending {
 				ea.Timestamp = &timestamppb.Timestamp{Seconds: -5}
 			case "future":
 				ea.Timestamp = timestamppb.New(base.Add(1000 * time.Hour))
+			case "far_future":
+				ea.Timestamp = &timestamppb.Timestamp{Seconds: 16725225600 + int64(st.N)} // year 2500
 			case "equal":
 				if stored != nil {
 					ea.Timestamp = &timestamppb.Timestamp{Seconds: stored.Sec, Nanos: stored.Nanos}
